@@ -329,8 +329,12 @@ theorem processInput_Mid (c : Cfg) (hcap : 0 < c.capCP) {s : St} (h : Mid s) (hn
 
 /-! ## `doFlush` -/
 
-theorem cnt_flush (c : Chan) (w : Nat) : cnt (c.flush.inf ++ c.flush.sh) w = cnt c.inf w := by
-  simp [Chan.flush]
+theorem cnt_flush (c : Chan) (w : Nat) : cnt (c.flush.inf ++ c.flush.sh) w = cnt (c.inf ++ c.sh) w := by
+  simp only [Chan.flush, List.nil_append, cnt_append]; omega
+
+theorem cnt_reinsert (c : Chan) (w : Nat) :
+    cnt (c.reinsert.inf ++ c.reinsert.sh) w = cnt (c.inf ++ c.sh) w := by
+  simp [Chan.reinsert]
 
 /-- `doFlush` re-establishes the invariant between events -/
 theorem doFlush_Inv (c : Cfg) {s : St} (h : Mid s) : Inv (doFlush c s) := by
